@@ -339,6 +339,47 @@ SPECS: List[Spec] = [
      replace_expr_where("_PythonCodeAssist._undotted_completions", lambda n: isinstance(n, ast.Call) and getattr(n.func, "attr", "") == "get_propagated_names",
                         lambda n: ast.parse("scope.get_names()", mode="eval").body), ["R20.2"]),
 ]
+
+# ---- round 3: variants for the rules added after the third seeding round
+SPECS += [
+    ("C10", "handler-narrowed-to-oserror", "rope/base/change.py",
+     replace_expr_where("ChangeSet.undo", lambda n: isinstance(n, ast.ExceptHandler),
+                        lambda n: ast.ExceptHandler(type=ast.Name(id="OSError", ctx=ast.Load()), name=n.name, body=n.body)), ["R10.8"]),
+    ("C07", "rebuilt-from-import-loses-level", "rope/refactor/importutils/actions.py",
+     replace_expr_where("FilteringVisitor.visitFromImport", lambda n: isinstance(n, ast.Attribute) and n.attr == "level", const(0)), ["R07.7"]),
+    ("C09", "file-list-bulk-add-unfiltered", "rope/base/project.py",
+     replace_expr_where("_FileListCacher._add_files", lambda n: isinstance(n, ast.UnaryOp) and "is_ignored" in ast.unparse(n), const(True)), ["R09.7"]),
+    ("C13", "file-list-bulk-add-unfiltered", "rope/base/project.py",
+     replace_expr_where("_FileListCacher._add_files", lambda n: isinstance(n, ast.UnaryOp) and "is_ignored" in ast.unparse(n), const(True)), ["R13.7"]),
+    ("C03", "returns-from-written-only", "rope/refactor/extract.py",
+     replace_expr_where("_ExtractMethodParts._find_function_returns",
+                        lambda n: isinstance(n, ast.BinOp) and isinstance(n.op, ast.BitOr) and "maybe_written" in ast.unparse(n),
+                        lambda n: n.left, nth=1), ["R03.9"]),
+    ("C11", "tobe-undone-caches", "rope/base/history.py",
+     replace_expr_where("History.compress", lambda n: isinstance(n, ast.Return),
+                        lambda n: ast.parse("self._compress = %s" % ast.unparse(n.value)).body[0]), ["R11.6"]),
+    ("C06", "introduced-parameter-first", "rope/refactor/introduce_parameter.py",
+     replace_expr_where("IntroduceParameter.get_changes", lambda n: isinstance(n, ast.Call) and getattr(n.func, "attr", "") == "append"
+                        and "args_with_defaults" in ast.unparse(n.func),
+                        lambda n: ast.Call(func=ast.Attribute(value=n.func.value, attr="insert", ctx=ast.Load()),
+                                           args=[ast.Constant(value=0)] + n.args, keywords=[])), ["R06.5"]),
+    ("C18", "dump-repeated", "rope/base/project.py",
+     replace_expr_where("_DataFiles.write_data", lambda n: isinstance(n, ast.Expr) and ast.unparse(n).startswith("pickle.dump"),
+                        lambda n: ast.For(target=ast.Name(id="_i", ctx=ast.Store()), iter=ast.parse("range(2)").body[0].value, body=[n], orelse=[])), ["R18.5"]),
+    ("C12", "writer-uses-type", "rope/base/change.py",
+     replace_expr_where("ChangeToData.convertRemoveResource", lambda n: isinstance(n, ast.Call) and getattr(n.func, "attr", "") == "is_folder",
+                        lambda n: ast.parse("type(change).__name__ == 'RemoveFolder'").body[0].value), ["R12.9"]),
+    ("C19", "wildcard-accepts-anything", "rope/refactor/wildcards.py",
+     replace_expr_where("DefaultWildcard._check_exact", lambda n: isinstance(n, ast.Call) and ast.unparse(n) == "isinstance(node, ast.expr)", const(True)), ["R19.5"]),
+    ("C14", "continuation-ignores-comment", "rope/base/codeanalyze.py",
+     replace_expr_where("_CustomGenerator._analyze_line", lambda n: isinstance(n, ast.Compare) and isinstance(n.ops[0], ast.NotEq)
+                        and ast.unparse(n.comparators[0]) == "'#'", const(True)), ["R14.7"]),
+    ("C08", "next-statement-outermost-first", "rope/refactor/patchedast.py",
+     replace_expr_where("_PatchingASTWalker._find_next_statement_start", lambda n: isinstance(n, ast.Call) and getattr(n.func, "id", "") == "reversed", unwrap_call), ["R08.6"]),
+    ("C17", "global-factory-unguarded", "rope/refactor/introduce_factory.py",
+     remove_stmt_where("IntroduceFactory._get_factory_method", lambda s: isinstance(s, ast.If) and "_get_scope_indents" in ast.unparse(s.test)), ["R17.6"]),
+]
+
 SPECS = [s for s in SPECS if s[1] != "tab-to-four-spaces"]
 
 
